@@ -55,6 +55,10 @@ func (t typ) grid(tier string) (full, core []string) {
 		"0", f(big.NewInt(1)), f(big.NewInt(2)), f(big.NewInt(-1))}
 	if t.FD > 0 {
 		full = append(full, "1", f(new(big.Int).Add(one, big.NewInt(1))))
+		// literals written with fewer fraction digits than the type has, just beyond and far beyond
+		// the largest value: scaling them to the type's fraction digits leaves the 64-bit range
+		w := new(big.Int).Add(new(big.Int).Quo(t.Hi, one), big.NewInt(1))
+		full = append(full, w.String(), new(big.Int).Mul(w, big.NewInt(2)).String(), new(big.Int).Neg(w).String(), w.String()+".5")
 	} else {
 		full = append(full, "5", "-0")
 		if t.Name == "length" {
@@ -311,7 +315,7 @@ func run(c *core.Ctx) {
 	fmt.Sscanf(sp[2], "%d", &k)
 	full, coreG := t.grid(c.Tier)
 	pf, pc := parts(full), parts(coreG)
-	c.Res.Bound = "restriction strings of <= 2 parts over a 12..14-value boundary grid (3 parts over a 6-value core grid), layout variants, syntactic faults; derivation chains of depth 1..3; all integer types, length, decimal64"
+	c.Res.Bound = "restriction strings of <= 2 parts over a 12..18-value boundary grid (3 parts over a 6-value core grid), layout variants, syntactic faults; derivation chains of depth 1..3; all integer types, length, decimal64"
 	n := 0
 	one := func(in Input) {
 		n++
@@ -502,7 +506,7 @@ func replay(tier string, raw json.RawMessage) (bool, string, string) {
 func init() {
 	core.Register(&core.Prop{
 		ID: "C10", Variant: "plain", Shards: shards, Run: run, Replay: replay,
-		Rule:        "for each of the 8 integer types, string length and decimal64 at the chosen fraction-digits: every restriction string with <= 2 parts (v or v..w) over a boundary grid (min, max, type bounds and +-1, 0, +-1 quantum, 2, -0, ...), 3 parts over a 6-value core grid, white-space layout variants and a syntactic-fault list; every depth-2 chain (accepted parent x child) and depth-3 chain over the core grid; run through typedef/leaf text + Process (Entry.Type.Range/Length) and through ParseRangesInt/ParseRangesDecimal, and compared with big.Int interval sets: accepted => exactly the written set, sorted/disjoint/coalesced, bounds at the type's fraction digits; syntactically invalid, out-of-order or wider-than-parent => error; RFC-valid and within the parent => accepted. states = distinct (type, chain); non-trivial = not rejected by the reference",
+		Rule:        "for each of the 8 integer types, string length and decimal64 at the chosen fraction-digits: every restriction string with <= 2 parts (v or v..w) over a boundary grid (min, max, type bounds and +-1, 0, +-1 quantum, 2, -0, for decimal64 also short literals whose scaling to the type's fraction digits leaves the 64-bit range, ...), 3 parts over a 6-value core grid, white-space layout variants and a syntactic-fault list; every depth-2 chain (accepted parent x child) and depth-3 chain over the core grid; run through typedef/leaf text + Process (Entry.Type.Range/Length) and through ParseRangesInt/ParseRangesDecimal, and compared with big.Int interval sets: accepted => exactly the written set, sorted/disjoint/coalesced, bounds at the type's fraction digits; syntactically invalid, out-of-order or wider-than-parent => error; RFC-valid and within the parent => accepted. states = distinct (type, chain); non-trivial = not rejected by the reference",
 		Assumptions: []string{"boundary grids stand in for the numeric domains", "parts written out of ascending order or overlapping are inside the statement's domain (it speaks of the written set and of its sorted, coalesced presentation) and must be accepted when within the parent", "hexadecimal/octal notations, which the library documents as accepted, are not generated"},
 	})
 }
